@@ -32,7 +32,7 @@ def main():
     vlib.templ_bin()
     byname = {}
     for pr in chosen:
-        for v in range(3):
+        for v in range(4):
             byname["p%07d_%d" % (pr["id"], v)] = (pr, v)
     envs = json.dumps([d["env"] for d in chosen[0]["den"]])
     # all programs of one run must share the environment list length used by their family; pass the longest
@@ -42,10 +42,28 @@ def main():
 
     def build(d):
         path = os.path.join(gen, d)
-        try:
-            vlib.templ_generate(path)
-        except vlib.InfraError as e:
-            raise vlib.InfraError("templ generate rejected a concretised template in %s: %s" % (d, str(e)[-1500:]))
+        for attempt in range(3):
+            try:
+                vlib.templ_generate(path)
+                break
+            except vlib.InfraError as e:
+                # the generator produced Go that its own gofmt step rejects: "the generated Go code compiles" is violated
+                bad = sorted(set(re.findall(r'/(p\d{7}_\d)\.templ source formatting error ([^\n\]]*)', str(e))))
+                if not bad:
+                    raise vlib.InfraError("templ generate rejected a concretised template in %s: %s" % (d, str(e)[-1500:]))
+                for name, msg in bad:
+                    compile_failures.append((name, "templ generate: generated code is not gofmt-valid: " + msg.strip()))
+                    for ext in (".templ", "_templ.go"):
+                        try:
+                            os.remove(os.path.join(path, name + ext))
+                        except OSError:
+                            pass
+                reg = os.path.join(path, "registry.go")
+                names = {n for n, _ in bad}
+                lines = [l for l in open(reg).read().splitlines(True) if not any(("return P" + n[1:] + "(") in l for n in names)]
+                open(reg, "w").write("".join(lines))
+        else:
+            raise vlib.InfraError("templ generate still failing after removing rejected templates in %s" % d)
         exe = os.path.join(sc, "gen-" + d)
         for attempt in range(8):
             r = vlib.run(["go", "build", "-gcflags=-e", "-o", exe, "./gen/" + d], cwd=hd, check=False, timeout=1800)
